@@ -19,6 +19,29 @@ Lemma count_p2k_shape lz : count_p2k lz = Z.shiftl 1 lz.
 Proof. reflexivity. Qed.
 Lemma count_ret_shape l x : count_ret l x = l * x.
 Proof. reflexivity. Qed.
+Lemma init_p_shape : init_p maxu = maxu.
+Proof. reflexivity. Qed.
+
+(* ---- the statement skeleton the model transcribes.  Everything the model copies by hand from
+   distinct.go rather than through a generated expression is pinned here, so that an added guard, a
+   dropped or reordered statement, a changed call argument breaks this lemma at make:
+   Add is   if coin { Remove(v); return }; Add(v); if|for full { var nb, rnd; range buf { if nb == 0 {
+   rnd = ..; nb = 64 }; if bit { Remove(elt) }; rnd >>= 1; nb-- }; p >>= 1 }   (skeleton digits: 1 if,
+   2 for, 3 range, 4 return, 5 assignment, 6 call, 8 ++/--, 9 declaration, e/f braces); the halving
+   statement is the [if] of the pinned tree or the [for] of the repair, as cvm_halving_is_loop says;
+   two Remove calls (the first, on the failed coin, with v; the second, in the pass, with the range
+   variable), one buf.Add (with v), two draws (coin, refill), the range is over the buffer itself,
+   and the statements come in the order the model runs them; Reset is Clear then the threshold
+   assignment; Count is an assignment and a return; Len returns buf.Len(). *)
+Lemma gen_skeleton :
+  skel_add = (if cvm_halving_is_loop then 286361825443241882880568798541311 else 286361825367684019154654475122175) /\
+  skel_reset = 58975 /\ skel_count = 58703 /\ skel_len = 3663 /\
+  n_remove = 2 /\ n_bufadd = 1 /\ n_word = 2 /\ n_clear = 1 /\
+  (forall v, remove_failed_arg v = v) /\ (forall v, bufadd_arg v = v) /\ (forall e, remove_pass_arg e = e) /\
+  (forall b, range_over b = b) /\ (forall l, len_ret l = l) /\ (forall sz, init_cap sz = sz) /\
+  ord_remove_failed < ord_bufadd < ord_refill /\ ord_refill < ord_remove_pass < ord_shift /\
+  ord_shift < ord_dec < ord_halve.
+Proof. repeat split; try reflexivity; vm_compute; reflexivity. Qed.
 
 (* ---- 64-bit arithmetic *)
 Lemma lz64_shiftr_maxu (j : nat) : (j <= 64)%nat -> lz64 (Z.shiftr maxu (Z.of_nat j)) = Z.of_nat j.
@@ -181,7 +204,7 @@ Section Det.
     (q >= maxu /\ failed = false /\ t' = t) \/
     (q < maxu /\ exists w, 0 <= w < two64 /\ words T t = w :: words T t' /\ orc T t' = orc T t /\ failed = (w >=? q)).
   Proof.
-    unfold dcoin. destruct (q <? maxu) eqn:Hq.
+    unfold dcoin, real_coin. destruct (q <? maxu) eqn:Hq.
     - apply Z.ltb_lt in Hq. unfold dbind, dword. destruct (words T t) as [|w r] eqn:Hw; [discriminate|].
       destruct ((0 <=? w) && (w <? two64)) eqn:Hr; [|discriminate].
       unfold dret. intros H. inversion H; subst. right. split; [assumption|]. exists w.
